@@ -135,7 +135,6 @@ Fixpoint classify {A} (f : A -> option N) (i : N) (l : list A) : list (N * N) :=
   | [] => []
   | x :: r => match f x with Some c => (i, c) :: classify f (i + 1) r | None => classify f (i + 1) r end
   end.
-Definition engine_violations_c08 (cs : list ecase) : list (N * N) := classify c08_class 0 cs.
 
 (* ---- C07: persisted operation answers like the long-lived engine, up to the end of the session ---- *)
 (* the application's entry functions are part of what a request can observe: they must be called
@@ -169,6 +168,31 @@ Definition engine_violations_c07 (cs : list ecase) : list (N * N) := classify c0
 (* ---- C17: refused input has no effect -------------------------------------------------------------- *)
 Definition refused_b (i : bytes) : bool :=
   (INPUT_LIMIT <? len i) || ((0 <? len i) && negb (valid_input_b i)).
+(* C08, "the session can still be ... continued" (persisted operation, no entry function): a stored
+   session without pending code that is not terminated is restarted at the entry node by the next
+   accepted request, so that request fetches some node's code; a request that fails before any code
+   fetch has found the session stuck *)
+Fixpoint c08_continuable (prev : option osnap) (steps : list (bytes * eobs)) : bool :=
+  match steps with
+  | [] => true
+  | (i, o) :: r =>
+    match prev with
+    | Some p =>
+      if (len (os_code p) =? 0) && negb (oflag p FLAG_TERMINATE) && negb (refused_b i) && negb (step_panicked o)
+      then existsb (fun c => match c with OcCode _ => true | _ => false end) (eo_calls o) else true
+    | None => true
+    end && c08_continuable (eo_snap o) r
+  end.
+Definition c08_class_full (ec : ecase) : option N :=
+  match c08_class ec with
+  | Some k => Some k
+  | None =>
+    if wf_app_b (ec_app ec) (ec_cfg ec)
+       && match c_first (ec_cfg ec) with None => true | Some _ => false end
+       && negb (c08_continuable None (ec_pers ec)) then Some 0 else None
+  end.
+Definition engine_violations_c08 (cs : list ecase) : list (N * N) := classify c08_class_full 0 cs.
+
 (* snapshots compared modulo the injected "MOVE <root>" for an empty pending code *)
 Definition norm_code (c : config) (code : bytes) : bytes :=
   match code with [] => encode (IMove (cfg_root c)) | _ => code end.
